@@ -75,13 +75,19 @@ let () =
   iter_lines stdin (fun l -> lines := l :: !lines);
   let arr = Array.of_list (List.rev !lines) in
   let n = Array.length arr in
-  let cfg = ref { permit = false; has_cb = false; home = None; fix_f7 = false; fix_f14 = false } in
+  let cfg = ref { permit = false; has_cb = false; home = None; fix_f7 = true; fix_f14 = true; fix_f7b = false } in
   let perms = ref [] and dflt = ref true in
-  (* variant 0 = the unchanged tree; 1 = with fix_C19_1 (F7); 2 = with fix_C19_2 (F14); 3 = both.
-     They run side by side on the same recorded environment answers. *)
+  (* variant 0 = the current tree (fix commits 4d56b95 and b4cfd8a present, F7b open);
+     1 = with the proposed notes/fix_C19_1.diff (F7b); 2 = the flow before 4d56b95 (F7 regression);
+     3 = the flow before b4cfd8a (F14 regression).  They run side by side on the same recorded
+     environment answers. *)
   let nv = 4 in
   let sts = Array.make nv st0 in
-  let vcfg k = { !cfg with fix_f7 = (k land 1 = 1); fix_f14 = (k land 2 = 2) } in
+  let vcfg k = match k with
+    | 0 -> { !cfg with fix_f7 = true; fix_f14 = true; fix_f7b = false }
+    | 1 -> { !cfg with fix_f7 = true; fix_f14 = true; fix_f7b = true }
+    | 2 -> { !cfg with fix_f7 = false; fix_f14 = true; fix_f7b = false }
+    | _ -> { !cfg with fix_f7 = true; fix_f14 = false; fix_f7b = false } in
   let i = ref 0 in
   let take_env () =
     let envs = ref [] and txt = ref [] in
@@ -102,7 +108,7 @@ let () =
      | "case" :: _ -> print_endline line; Array.fill sts 0 nv st0; perms := []; dflt := true
      | ["cfg"; p; cb; hm] ->
        let h = if hm = "none" then None else if hm = "sb" then Some (bytes_of_string (root ^ "/sb")) else Some (hb hm) in
-       cfg := { permit = (p = "1"); has_cb = (cb <> "none"); home = h; fix_f7 = false; fix_f14 = false };
+       cfg := { permit = (p = "1"); has_cb = (cb <> "none"); home = h; fix_f7 = true; fix_f14 = true; fix_f7b = false };
        if cb <> "none" then begin
          perms := List.init (String.length cb) (fun k -> cb.[k] = '1');
          dflt := (cb.[String.length cb - 1] = '1') end;
